@@ -337,6 +337,7 @@ class Exec:
             if mm: return {'str': mm.group(1)}
             mm = re.match(r"b?'(.)'$", name)
             if mm: return bv(ord(mm.group(1)), 8)
+            if name in ('RangeFull', 'std::ops::RangeFull', 'core::ops::RangeFull'): return {'__ty': 'RangeFull'}
             c = self.eval_const(name)
             return c if c is not None else Opaque('const ' + name)
         if re.match(r'(?:<.*>|[\w:]+)::\w+$', strip_generics(tok)) and not re.fullmatch(r'_\d+', tok) and '(' not in tok.split('>')[-1] and ' ' not in strip_generics(tok).split('>')[-1]:
